@@ -481,7 +481,7 @@ def hexdump (data):
   """
   Converts raw data to a hex dump
   """
-  if isinstance(data, (str,bytes)):
+  if isinstance(data, str):
     data = [ord(c) for c in data]
   o = ""
   def chunks (data, length):
